@@ -52,6 +52,19 @@ def gen(rng, tier, k):
                 ch["svs"].append([ch["svs"][0][0], 0.8])  # two SVs at one time
             if "sv_x" in ch:
                 ch["sv_x"] = [[0, 0, 50, False] for _ in ch["svs"]]
+    if rng.random() < 0.15:
+        # the whole chart moved in time so that one of its landmarks is exactly 0 ms (a time of 0 is a time like any other)
+        which = rng.choice(["last_object", "last_object", "first_tempo", "last_tempo"])
+        for ch in spec["charts"]:
+            times = [h[0] for h in ch["hits"]] + [h[0] + 0.0 for h in ch["holds"]]
+            tails = [h[0] + h[2] for h in ch["holds"]]
+            if not times or not ch["bpms"]:
+                continue
+            pivot = {"last_object": max(times + tails) if rng.random() < 0.5 else max(times), "first_tempo": min(b[0] for b in ch["bpms"]),
+                     "last_tempo": max(b[0] for b in ch["bpms"])}[which]
+            for key in ("hits", "holds", "bpms", "svs", "samples"):
+                for row in ch.get(key, []):
+                    row[0] = row[0] - pivot
     hist = []
     if cls == "unsorted":
         hist = [[rng.choice(["shuffle", "reverse", "append_split"]), rng.randrange(10**6)]]
